@@ -69,7 +69,8 @@ struct Tree {
 }
 
 fn trees(thorough: bool) -> Vec<Tree> {
-    let child_names = ["saa", "sb-c", "sd_e", "sb", "s__x"];
+    // `sa` stands before `saa`: a name that is a strict prefix of a later sibling's
+    let child_names = ["sa", "saa", "sb-c", "sd_e", "sb", "s__x"];
     let mut out = vec![];
     for set in subsets_upto(child_names.len(), child_names.len()) {
         if set.is_empty() {
